@@ -21,6 +21,11 @@ import RV.Base.Proto
     vcontains k s p o                -> True | False
     vlen k                           -> n
     sctx                             -> sorted keys of store.contexts()
+    choices T P L x y C              -> sorted triples   triples_choices: P ∈ {s,p,o} the list position,
+                                                         L = a,b,… or `e` (empty list), x y the two other positions
+    vchoices k P L x y               -> sorted triples   (through a view)
+    path T K s o G C | pathin T K s o G -> the graph a property-path pattern is evaluated over: key or `*` (the union)
+    vpath k K s o                    -> k
 -/
 open RV RV.C02 RV.Proto
 
@@ -96,6 +101,26 @@ def showKeys (ks : List Key) : String :=
   " ".intercalate ((sortBy lexLt (ks.map (fun k => [k]))).map showNats)
 
 def showBool (b : Bool) : String := if b then "True" else "False"
+
+def showOptKey (k : Option Key) : String :=
+  match k with
+  | none => "*"
+  | some k => toString k
+
+def natList? (w : String) : Option (List Nat) :=
+  if w = "e" then some [] else (w.splitOn ",").mapM String.toNat?
+
+def choice? (pos l x y : String) : Option Choice := do
+  let l ← natList? l
+  let x ← optNat? x
+  let y ← optNat? y
+  if pos = "s" then pure (.subj l x y)
+  else if pos = "p" then pure (.pred x l y)
+  else if pos = "o" then pure (.obj x y l)
+  else none
+
+def pathKind? (w : String) : Option Unit :=
+  if w = "seq" || w = "alt" || w = "inv" || w = "star" then some () else none
 
 def step (s : St) : List String → St × String
   | ["reset", a, b] =>
@@ -190,6 +215,32 @@ def step (s : St) : List String → St × String
     | some k => (s, toString (vLen s.mem k))
     | none => (s, "bad-op")
   | ["sctx"] => (s, showKeys s.mem.allc)
+  | ["choices", w, pos, l, x, y, ctx] =>
+    match top? w, choice? pos l x y, garg? ctx with
+    | some w, some ch, some ctx =>
+      let r := cgTriplesChoices (s.cfg w) s.mem ch (ctx.getD .none)
+      ({ s with mem := r.1 }, showTriples r.2)
+    | _, _, _ => (s, "bad-op")
+  | ["vchoices", k, pos, l, x, y] =>
+    match k.toNat?, choice? pos l x y with
+    | some k, some ch => (s, showTriples (vChoices s.mem k ch))
+    | _, _ => (s, "bad-op")
+  | ["path", w, kind, a, c, g, ctx] =>
+    match top? w, pathKind? kind, tq? a "*" c g, garg? ctx with
+    | some w, some _, some tq, some ctx =>
+      let r := cgTriples (s.cfg w) s.mem tq (ctx.getD .none)
+      ({ s with mem := r.1 }, showOptKey (cgPathGraph (s.cfg w) tq (ctx.getD .none)))
+    | _, _, _, _ => (s, "bad-op")
+  | ["pathin", w, kind, a, c, g] =>
+    match top? w, pathKind? kind, tq? a "*" c g with
+    | some w, some _, some tq =>
+      let r := cgContains (s.cfg w) s.mem tq
+      ({ s with mem := r.1 }, showOptKey (cgPathGraphContains (s.cfg w) tq))
+    | _, _, _ => (s, "bad-op")
+  | ["vpath", k, kind, a, c] =>
+    match k.toNat?, pathKind? kind, pat? a "*" c with
+    | some k, some _, some _ => (s, toString k)
+    | _, _, _ => (s, "bad-op")
   | _ => (s, "bad-op")
 
 def main : IO Unit := RV.Proto.run step (⟨Mem.empty, false, true⟩ : St)
